@@ -179,7 +179,10 @@ class Life:
                 shapes.append((f, ub_committed(p), "unreadable"))
         st = None
         if self.rec is not None:
-            st = (self.rec.mode, bool(self.rec._has_writable), len(self.rec.__files__))
+            # in-memory component (deduplication only): cached user blocks, in their dict order
+            ub = getattr(self.rec, "_ublocks", None)
+            ubk = tuple(os.path.basename(str(k)) for k in ub) if isinstance(ub, dict) else None
+            st = (self.rec.mode, bool(self.rec._has_writable), len(self.rec.__files__), ubk)
         return hashlib.blake2b(repr((st, shapes)).encode(), digest_size=16).digest()
 
     def close(self):
